@@ -13,7 +13,7 @@ var OpNames = []string{"AND", "OR", "EQUALS", "LIKE", "NOT", "RANGE", "MUST", "M
 var badOpNames = []string{"", "and", "Equals", "UNDEFINED", "XOR", "MUSTNOT", " AND", "0", "null"}
 
 var jsonLeaves = []string{
-	`"a"`, `"b c"`, `""`, `"*"`, `"a*"`, `"?"`, `"/x/"`, `"/"`, `"//"`, `"/a*b/"`, `5`, `-3`, `0`, `1.5`, `1e5`, `1e400`, `-0`, `1.0`, `5.0`, `null`, `true`, `false`,
+	`"a"`, `"b c"`, `""`, `"*"`, `"a*"`, `"?"`, `"/x/"`, `"/"`, `"//"`, `"/a*b/"`, `"/a\\\\/"`, `"/a\\/"`, `5`, `-3`, `0`, `1.5`, `1e5`, `1e400`, `-0`, `1.0`, `5.0`, `null`, `true`, `false`,
 	`"NaN"`, `"min"`, `"\"min\":"`, `"\"left\":"`, `"it's"`, `"ü"`, `"\u0000"`, `"\ud800"`, `9223372036854775807`, `9223372036854775808`, `1e-320`, `"[1, 2]"`, `"x,y"`, `"'*'"`, `"(a"`, `"%"`, `"_"`,
 }
 
